@@ -583,3 +583,89 @@ Proof.
   exists (fun _ => []), (fun _ => 0), [(Call 1 [] [] [] [], []); (Call 2 [] [] [] [], [])].
   split; [intros t; constructor|]. repeat split; vm_compute; reflexivity.
 Qed.
+
+(** * autoprint *)
+
+Lemma indices_positions {A B} (E : A -> B) (f : A -> bool) (g : B -> bool) : forall l i,
+  (forall x, In x l -> f x = g (E x)) ->
+  indices_where f i l = positions_where g i (map E l).
+Proof.
+  induction l as [|x l IH]; intros i H; [reflexivity|].
+  cbn [indices_where positions_where map]. rewrite (H x (or_introl eq_refl)).
+  rewrite (IH (S i)); [reflexivity|]. intros y Hy. apply H; right; exact Hy.
+Qed.
+
+Lemma existsb_map' {A B} (f : B -> bool) (g : A -> B) l : existsb f (map g l) = existsb (fun x => f (g x)) l.
+Proof. induction l as [|x l IH]; [reflexivity|]. cbn. rewrite IH. reflexivity. Qed.
+
+Lemma root_in_expand c : In (root_flat c) (expand c).
+Proof. destruct c as [t a k pre post]. rewrite expand_unfold. apply in_or_app; right; left; reflexivity. Qed.
+
+Lemma root_flat_of c : root_flat c = root_of c.
+Proof. destruct c; reflexivity. Qed.
+
+Lemma nat_list_eqb_refl l : list_eqb Nat.eqb l l = true.
+Proof. induction l as [|x l IH]; [reflexivity|]. cbn. rewrite Nat.eqb_refl, IH. reflexivity. Qed.
+
+(** what the model prints is what the specification says should be printed,
+    whenever literal and effective equality agree on the session *)
+Lemma printed_meets_spec sig eqk autop reqs dflt dd :
+  agree sig eqk (dfs (requested reqs dflt)) = true ->
+  print_ok entry_eqb sig autop reqs dflt dd (run_once []) (printed eqk autop reqs dflt dd) = true.
+Proof.
+  intros G. unfold print_ok, printed. rewrite normalize_requested, expand_is_dfs.
+  set (calls := requested reqs dflt) in *. set (l := dfs calls) in *.
+  destruct (all_some (map (eff sig) l)) as [order|] eqn:Eo; [|reflexivity].
+  assert (forall x, In x l -> exists e, eff sig x = Some e) as Hall.
+  { pose proof (all_some_map _ _ _ Eo) as F2. clear -F2.
+    induction F2 as [|a0 b0 l0 o0 Hab _ IH]; intros x [].
+    - subst. eexists; eauto.
+    - apply IH; assumption. }
+  assert (forall c, In c calls -> In (root_flat c) l) as Hroot.
+  { intros c Hc. unfold l. rewrite <- expand_is_dfs. unfold expand_calls. apply in_flat_map.
+    exists c. split; [exact Hc | apply root_in_expand]. }
+  assert (all_some (map (eff sig) (map root_of calls)) = Some (map (E_of sig) (map root_flat calls))) as Hd.
+  { rewrite <- (map_ext _ _ root_flat_of). apply (all_some_sub sig l _ order Eo).
+    intros x Hx. apply in_map_iff in Hx. destruct Hx as [c [<- Hc]]. apply Hroot; exact Hc. }
+  rewrite Hd.
+  assert (forall a b, In a l -> In b l -> call_eqb eqk a b = entry_eqb (E_of sig a) (E_of sig b)) as Hag.
+  { intros a b Ha Hb. unfold agree in G. rewrite forallb_forall in G.
+    specialize (G a Ha). rewrite forallb_forall in G. specialize (G b Hb).
+    apply Bool.eqb_prop in G. rewrite G.
+    destruct (Hall a Ha) as [ea Hea]. destruct (Hall b Hb) as [eb Heb].
+    unfold E_of. rewrite Hea, Heb. reflexivity. }
+  (* the marking function agrees pointwise on calls of the session *)
+  assert (forall x, In x l ->
+            (autop (f_task x) && existsb (fun d => call_eqb eqk d x) (map root_flat calls)) =
+            (autop (fst (E_of sig x)) &&
+             existsb (entry_eqb (E_of sig x)) (map (E_of sig) (map root_flat calls)))) as Hmark.
+  { intros x Hx. destruct (Hall x Hx) as [ex Hex].
+    assert (fst (E_of sig x) = f_task x) as Hf.
+    { unfold E_of. rewrite Hex. unfold eff in Hex.
+      destruct (bind (sig (f_task x)) (f_args x) (f_kw x)); [|discriminate]. inversion Hex; reflexivity. }
+    rewrite Hf. f_equal.
+    assert (forall cs, (forall c, In c cs -> In (root_flat c) l) ->
+              existsb (fun d => call_eqb eqk d x) (map root_flat cs) =
+              existsb (entry_eqb (E_of sig x)) (map (E_of sig) (map root_flat cs))) as Hcs.
+    { induction cs as [|c cs IH]; intros Hr; [reflexivity|]. cbn [map existsb].
+      rewrite (Hag (root_flat c) x (Hr c (or_introl eq_refl)) Hx), entry_eqb_sym. f_equal.
+      apply IH. intros c' Hc'. apply Hr; right; exact Hc'. }
+    apply Hcs. exact Hroot. }
+  destruct dd.
+  - assert (forall x, In x (dedupe eqk l) -> In x l) as Hsub.
+    { intros x Hx. unfold dedupe in Hx. destruct (dedupe_from_incl _ _ _ _ Hx) as [[]|H]; exact H. }
+    assert (map (E_of sig) (dedupe eqk l) = run_once [] order) as Hdd.
+    { unfold dedupe. rewrite (dedupe_run_once eqk (E_of sig) l []).
+      - cbn [map rev app]. rewrite (all_some_E sig l order Eo). reflexivity.
+      - cbn [app]. exact Hag. }
+    rewrite <- Hdd.
+    rewrite (indices_positions (E_of sig) _
+               (fun e => autop (fst e) && existsb (entry_eqb e) (map (E_of sig) (map root_flat calls)))).
+    + apply nat_list_eqb_refl.
+    + intros x Hx. apply Hmark. apply Hsub; exact Hx.
+  - rewrite (all_some_E sig l order Eo).
+    rewrite (indices_positions (E_of sig) _
+               (fun e => autop (fst e) && existsb (entry_eqb e) (map (E_of sig) (map root_flat calls)))).
+    + apply nat_list_eqb_refl.
+    + exact Hmark.
+Qed.
